@@ -13,7 +13,7 @@
  * The text lives in an EXACT-SIZE heap object (malloc(LEN + 1): the text bytes and the terminating NUL, nothing after it) and
  * the parser is handed a std::string that refers to it in place (w_parse_ds_inplace, see wrap.cc), so a read one byte past
  * the terminator is outside every object: CBMC's pointer checks fail on it, ASan reports heap-buffer-overflow on replay.
- * Optional concrete prefix (cells): NPRE in 0..3 and P0, P1, P2 = the first NPRE text bytes; the remaining LEN - NPRE bytes are
+ * Optional concrete prefix (cells): NPRE in 0..6 and P0..P5 = the first NPRE text bytes; the remaining LEN - NPRE bytes are
  * symbolic. The branches of the parser on the concrete bytes fold, so one query per construct opener costs seconds. */
 #include "harness.h"
 #include <stdlib.h>
@@ -28,11 +28,17 @@ static uint64_t c_left[MAXCALLS], c_used[MAXCALLS], c_val[MAXCALLS];
 static uint32_t c_kind[MAXCALLS]; /* 0 strtoull 1 strtof 2 strtod */
 static uint64_t text_len;
 
-static uint64_t my_strlen(const uint8_t* s) { uint64_t n = 0; while (s[n]) n++; return n; }
+/* all loops of the reference side have constant bounds (a loop whose exit depends on symbolic data is otherwise unrolled to --unwind) */
+static uint64_t my_strlen(const uint8_t* s) { uint64_t n = 0; for (int k = 0; k < LEN; k++) if (s[n]) n++; return n; } /* s lies inside the text: at most LEN characters before the NUL */
 static uint64_t contract(const uint8_t* s, uint8_t** endp, uint32_t kind) {
   uint64_t left = my_strlen(s);
   uint64_t used = in_range(0, LEN);
   ASSUME(used <= left);
+  if (left == 0) used = 0; /* same value; concrete for symbolic execution when the conversion starts at the terminator */
+#ifdef USED /* optional cell: the conversion consumes exactly min(USED, left) characters (keeps the cursor concrete) */
+  ASSUME(used == (left < USED ? left : USED));
+  used = left < USED ? left : USED;
+#endif
   uint64_t v = in_u64();
   if (kind == 1) v &= 0xFFFFFFFFull;
   /* keep floating values non-NaN: a NaN payload need not survive being passed around as a float/double */
@@ -73,7 +79,7 @@ float X_strtof(uint8_t* s, uint8_t* e) { uint32_t v = (uint32_t)contract(s, (uin
 static uint8_t ref[8 * LEN + 8], refm[8 * LEN + 8];
 static uint64_t rn;
 static void emit(uint64_t v, int width, int big, int enabled) {
-  for (int k = 0; k < width; k++) {
+  for (int k = 0; k < 8; k++) if (k < width) {
     int sh = big ? 8 * (width - 1 - k) : 8 * k;
     ref[rn] = (uint8_t)(v >> sh); refm[rn] = enabled ? 0xFF : 0x00; rn++;
   }
@@ -95,6 +101,15 @@ void harness(void) {
 #if NPRE >= 3
   t[2] = P2;
 #endif
+#if NPRE >= 4
+  t[3] = P3;
+#endif
+#if NPRE >= 5
+  t[4] = P4;
+#endif
+#if NPRE >= 6
+  t[5] = P5;
+#endif
   in_bytes(t + NPRE, LEN - NPRE);
   t[LEN] = 0;
   uint32_t want_mask = in_bool();
@@ -113,7 +128,7 @@ void harness(void) {
   uint64_t n = my_strlen(t), pos = 0, call = 0;
   int str = 0, ustr = 0, lc = 0, bc = 0, high = 1, big = 0, en = 1, stop = 0, calls_ok = 1;
   uint8_t acc = 0;
-  while (pos < n && !stop) {
+  for (int it = 0; it < LEN; it++) if (pos < n && !stop) { /* every iteration consumes at least one character */
     uint8_t c = t[pos], c1 = t[pos + 1]; /* t[n] == 0 */
     if (lc) { if (c == '\n') lc = 0; pos++; }
     else if (bc) { if (c == '*' && c1 == '/') { bc = 0; pos += 2; } else pos++; }
@@ -134,7 +149,7 @@ void harness(void) {
     else if (c == '$') { big = !big; pos++; }
     else if (c == '#' || c == '%') {
       int k = 1; pos++;
-      if (c == '#') { while (k < 4 && pos < n && t[pos] == '#') { k++; pos++; } }
+      if (c == '#') { for (int j = 0; j < 3; j++) if (pos < n && t[pos] == '#' && k == j + 1) { k++; pos++; } }
       else if (pos < n && t[pos] == '%') { k = 2; pos++; }
       uint32_t kind = c == '#' ? 0 : (uint32_t)k;
       int width = c == '#' ? (1 << (k - 1)) : 4 * k;
@@ -156,7 +171,8 @@ void harness(void) {
   ASSERT(calls_ok && (stop || call == ncalls), "numeric conversions are requested exactly where the syntax has # / % constructs, on the rest of the text");
   ASSERT(r == (int64_t)rn, "parsed data has the reference length (no exception)");
   ASSERT(ml == (want_mask ? (int64_t)rn : 0), "mask has the length of the data (empty when not requested)");
-  if (r == (int64_t)rn && calls_ok) for (uint64_t i = 0; i < rn; i++) {
+  ASSERT(rn <= 4 * LEN && rn <= CAP, "reference: at most 4 bytes per text character (a run of % signs), 16 in all for the cells used");
+  if (r == (int64_t)rn && calls_ok) for (uint64_t i = 0; i < (4 * LEN < CAP ? 4 * LEN : CAP); i++) if (i < rn) {
     ASSERT(out[i] == ref[i], "parsed bytes equal the reference parser");
     if (want_mask && ml == (int64_t)rn) ASSERT(mout[i] == refm[i], "mask bytes equal the reference parser");
   }
